@@ -18,6 +18,10 @@ import specdiff
 
 THEOREM_MODULES = ["Yarel.Props.C15", "Yarel.Props.C09", "Yarel.Props.SpecReuse"]
 REQUIRED_THEOREMS = ["execute_depends_on_persistent_only", "runSnippet_depends_on_persistent_only", "residue_fresh", "residue_fresh_after_any_run", "reset_eq_new", "execute_dual"]
+# the state the models abstract is all the state there is: the fields of the run-time structures, regenerated on every run, are the ones
+# the models were written against (Props/StateInventory)
+THEOREM_MODULES.append("Yarel.Props.StateInventory")
+REQUIRED_THEOREMS += ['state_of_interpreter_and_fiber']
 LEVEL = "proof"
 ASSUMPTIONS = [
     "residue = (exception-in-flight flag, class definition in progress, active fiber's stack/frames/handlers, fiber designators) as "
